@@ -35,6 +35,7 @@ def main(tier):
     ck.rule("R-C03-5", "row sums equal the mass term (consistency of the stencil)", floor=4)
     ck.rule("R-C03-7", "build_rhs_f: source term at (r_i, theta_j) on operator rows, boundary data on Dirichlet rows, every node written once", floor=4)
     ck.rule("R-C03-6", "rhs discretisation: factor * beta == row sum of the operator (i_r >= 1); Dirichlet rows untouched; cached == uncached", floor=4)
+    ck.rule("R-C03-8", "single-thread code path (omp_get_max_threads() == 1) applies the same operator table as the parallel path (give, take)", floor=8)
     prog = tab_ops.load()
     ck.units += prog.units
     for qn in ("ResidualGive::computeResidual", "ResidualGive::applyCircleSection", "ResidualGive::applyRadialSection", "ResidualTake::computeResidual",
@@ -59,6 +60,23 @@ def main(tier):
         if S.dom.oob:
             ck.fail("R-C03-2", "out-of-range", S.dom.oob[0][3], "%s: access %s[%s] of length %s" % ((sk,) + S.dom.oob[0][:3]))
         Ag = tables[(True, True)]
+        # ---- R-C03-8: the sequential branch of computeResidual
+        S1 = tab_ops.Setting(prog, nr, nt, nsc, dirbc, threads=1)
+        for cls, Apar, st in (("ResidualGive", Ag, site_g), ("ResidualTake", At, site_t)):
+            key1 = "%s %s threads=1" % (cls, sk)
+            ck.instance("R-C03-8", key1)
+            A1, probs1, regs1 = S1.residual(cls, S1.cache(True, True))
+            if probs1:
+                ck.fail("R-C03-8", "%s:sequential:rhs-weight" % cls, st, "%s: %s" % (key1, probs1[0]))
+            if S1.dom.oob:
+                ck.fail("R-C03-8", "%s:sequential:out-of-range" % cls, S1.dom.oob[0][3], "%s: access %s[%s] of length %s" % ((key1,) + S1.dom.oob[0][:3]))
+            d = tab_ops.diff_tables(A1, Apar)
+            if d:
+                i, c, a, b = d[0]
+                ck.violation("R-C03-8", "%s:sequential-vs-parallel" % cls, ir.locstr(prog.fn(cls + "::computeResidual")),
+                             "%s: row %s (r,theta=%s) column %s: the single-thread path has %s, the parallel path has %s" % (key1, i, S.rt(i), c, a, b))
+            else:
+                ck.ok("R-C03-8", key1, sample={"operator": cls, "shape": sk, "regions on the sequential path": len(regs1)})
         # ---- R-C03-1
         ck.instance("R-C03-1", sk)
         d = tab_ops.diff_tables(Ag, At)
